@@ -279,7 +279,7 @@ def _run_unit(unit):
     from . import extract
     import signal
     t0 = time.time()
-    budget = int(os.environ.get("PVC_UNIT_TIMEOUT", "0")) or (420 if (_CTX and _CTX.tier == "quick") else 5400)
+    budget = _unit_budget(_CTX.tier if _CTX else "thorough")
     try:
         signal.signal(signal.SIGALRM, _alarm)
         signal.alarm(budget)
@@ -288,13 +288,8 @@ def _run_unit(unit):
     try:
         return _run_unit_inner(unit)
     except UnitTimeout:
-        r = UnitResult(unit.name, unit.kind)
         # an obligation record stands for the unit, so that the check can try the unit's native replayer / search
-        r.obligations.append(ObRec(f"{unit.name}/unit-not-decided-in-time", "timeout", "unknown", time.time() - t0,
-                                   f"unit exceeded its time budget of {budget}s (solver or path explosion)", None, "none",
-                                   unit.name))
-        r.wall = time.time() - t0
-        return r
+        return _timeout_result(unit, budget, time.time() - t0, "solver or path explosion")
     finally:
         try:
             signal.alarm(0)
@@ -394,13 +389,153 @@ def _run_units_nocache(units, tier, seed, jobs=None):
         _worker_init(tier, seed, verif_dir)
         out = [_run_unit(u) for u in units]
         return out
-    ctx = mp.get_context("fork")
-    with ctx.Pool(jobs, initializer=_worker_init, initargs=(tier, seed, verif_dir)) as pool:
-        results = pool.map(_run_unit, [units[i] for i in order], chunksize=1)
+    results = _supervised_map([units[i] for i in order], tier, seed, verif_dir, jobs)
     out = [None] * len(units)
     for i, r in zip(order, results):
         out[i] = r
     return out
+
+
+def _unit_budget(tier):
+    return int(os.environ.get("PVC_UNIT_TIMEOUT", "0")) or (420 if tier == "quick" else 5400)
+
+
+def _timeout_result(unit, budget, wall, how):
+    r = UnitResult(unit.name, unit.kind)
+    r.obligations.append(ObRec(f"{unit.name}/unit-not-decided-in-time", "timeout", "unknown", wall,
+                               f"unit exceeded its time budget of {budget}s ({how})", None, "none", unit.name))
+    r.wall = wall
+    return r
+
+
+def _worker_loop(conn, units, tier, seed, verif_dir):
+    import pickle
+    _worker_init(tier, seed, verif_dir)
+    while True:
+        try:
+            idx = conn.recv()
+        except (EOFError, OSError):
+            return
+        if idx is None:
+            return
+        r = _run_unit(units[idx])
+        try:
+            conn.send_bytes(pickle.dumps((idx, r)))
+        except Exception as e:  # noqa  unpicklable result: report as engine error rather than dying silently
+            rr = UnitResult(units[idx].name, units[idx].kind)
+            rr.error = f"result of unit not transferable: {type(e).__name__}: {e}"
+            conn.send_bytes(pickle.dumps((idx, rr)))
+
+
+def _supervised_map(units, tier, seed, verif_dir, jobs):
+    """process pool with a hard per-unit watchdog.  multiprocessing.Pool waits for ever when a worker dies (a solver
+    crash) and SIGALRM is not delivered while the solver's native code runs, so the parent supervises: a unit that
+    overruns its budget by more than the grace period is killed and recorded as *not decided in time* (undecided, never
+    a verdict); a worker that dies is replaced and the unit is retried once, then recorded as an engine error."""
+    import multiprocessing as mp
+    import pickle
+    from multiprocessing.connection import wait
+    ctx = mp.get_context("fork")
+    budget = _unit_budget(tier)
+    grace = 45
+    n = len(units)
+    results = [None] * n
+    queue = list(range(n))
+    queue.reverse()  # pop() takes the most expensive first (units are cost-sorted)
+    tries = [0] * n
+    workers = {}  # conn -> [proc, idx or None, t_start]
+
+    def spawn():
+        pc, cc = ctx.Pipe()
+        p = ctx.Process(target=_worker_loop, args=(cc, units, tier, seed, verif_dir), daemon=True)
+        p.start()
+        cc.close()
+        workers[pc] = [p, None, 0.0]
+        return pc
+
+    def assign(pc):
+        if not queue:
+            return False
+        idx = queue.pop()
+        tries[idx] += 1
+        workers[pc][1] = idx
+        workers[pc][2] = time.time()
+        pc.send(idx)
+        return True
+
+    def retire(pc, kill=False):
+        p = workers.pop(pc)[0]
+        try:
+            if kill and p.is_alive():
+                p.kill()
+            else:
+                try:
+                    pc.send(None)
+                except Exception:  # noqa
+                    pass
+            pc.close()
+        except Exception:  # noqa
+            pass
+        p.join(5)
+        if p.is_alive():
+            p.kill()
+            p.join(5)
+
+    for _ in range(min(jobs, n)):
+        assign(spawn())
+    done = 0
+    while done < n:
+        busy = [pc for pc, w in workers.items() if w[1] is not None]
+        if not busy:
+            if queue:
+                assign(spawn())
+                continue
+            break
+        ready = wait(busy, timeout=2.0)
+        now = time.time()
+        for pc in ready:
+            w = workers[pc]
+            idx = w[1]
+            try:
+                ridx, r = pickle.loads(pc.recv_bytes())
+                results[ridx] = r
+                done += 1
+                w[1] = None
+                if not assign(pc):
+                    retire(pc)
+            except (EOFError, OSError, pickle.UnpicklingError) as e:
+                # the worker died while running unit idx
+                code = w[0].exitcode
+                retire(pc, kill=True)
+                if tries[idx] < 2:
+                    queue.append(idx)
+                else:
+                    r = UnitResult(units[idx].name, units[idx].kind)
+                    r.error = f"worker process died twice while running this unit (exit code {code}, {type(e).__name__})"
+                    results[idx] = r
+                    done += 1
+                if queue:
+                    assign(spawn())
+        for pc in list(workers):
+            w = workers.get(pc)
+            if w is None or w[1] is None:
+                continue
+            if now - w[2] > budget + grace:
+                idx = w[1]
+                retire(pc, kill=True)
+                results[idx] = _timeout_result(units[idx], budget, now - w[2], "worker killed by the supervisor: "
+                                               "the solver's native code did not return")
+                done += 1
+                if queue:
+                    assign(spawn())
+    for pc in list(workers):
+        retire(pc)
+    for i in range(n):
+        if results[i] is None:
+            r = UnitResult(units[i].name, units[i].kind)
+            r.error = "unit was not run (supervisor ended early)"
+            results[i] = r
+    return results
 
 
 def factory_unit(ctx, res, col, reg, module, factory, arg, label):
